@@ -1,0 +1,159 @@
+//! C21 — `RemoteMap` / `RemoteStateActor` lifecycle (`socket/remote_map.rs`,
+//! `socket/remote_map/remote_state.rs`): event log, pause points and a harness
+//! wrapper around a `RemoteMap` built with default collaborators.
+//!
+//! Remotes are named by a small index `i` (key `SecretKey::from_bytes(&[i; 32])`);
+//! resolve requests carry their sequence number as the port of their single IP
+//! address, so the log can name them.
+use std::net::SocketAddr;
+
+use iroh_base::{EndpointAddr, EndpointId, SecretKey, TransportAddr};
+use tokio::sync::oneshot;
+
+use super::sched;
+use crate::{
+    address_lookup::AddressLookupFailed,
+    socket::remote_map::{VerifRemoteStateMessage as RemoteStateMessage, verif_c21 as inner},
+};
+
+pub const BEFORE_CLOSE: &str = "remote.actor.before_close";
+pub const AFTER_CLOSE: &str = "remote.actor.after_close";
+
+pub fn remote_id(i: u8) -> EndpointId {
+    SecretKey::from_bytes(&[i; 32]).public()
+}
+
+fn idx(id: EndpointId) -> String {
+    for i in 0..8u8 {
+        if remote_id(i) == id {
+            return i.to_string();
+        }
+    }
+    "?".to_string()
+}
+
+fn msg_name(msg: &RemoteStateMessage) -> String {
+    match msg {
+        RemoteStateMessage::ResolveRemote(addrs, _) => {
+            let port = addrs.iter().find_map(|a| match a {
+                TransportAddr::Ip(sa) => Some(sa.port()),
+                _ => None,
+            });
+            format!("q{}", port.unwrap_or(0))
+        }
+        RemoteStateMessage::NetworkChange { .. } => "n".to_string(),
+        _ => "o".to_string(),
+    }
+}
+
+fn msgs_name(msgs: &[RemoteStateMessage]) -> String {
+    msgs.iter().map(msg_name).collect::<Vec<_>>().join(",")
+}
+
+pub(crate) fn on_start(id: EndpointId, initial: &[RemoteStateMessage]) {
+    sched::event("c21.start", format!("{} {}", idx(id), msgs_name(initial)));
+}
+pub(crate) fn on_removed(id: EndpointId) {
+    sched::event("c21.removed", idx(id));
+}
+pub(crate) fn on_send(id: EndpointId, msg: &RemoteStateMessage) {
+    sched::event("c21.send", format!("{} {}", idx(id), msg_name(msg)));
+}
+pub(crate) fn on_send_err(id: EndpointId) {
+    sched::event("c21.send_err", idx(id));
+}
+pub(crate) fn on_send_done(id: EndpointId) {
+    sched::event("c21.send_done", idx(id));
+}
+pub(crate) fn on_joined(id: EndpointId, leftover: &[RemoteStateMessage]) {
+    sched::event("c21.joined", format!("{} {}", idx(id), msgs_name(leftover)));
+}
+pub(crate) fn on_actor_started(id: EndpointId) {
+    sched::event("c21.actor_started", idx(id));
+}
+pub(crate) fn on_handle(id: EndpointId, msg: &RemoteStateMessage) {
+    sched::event("c21.handle", format!("{} {}", idx(id), msg_name(msg)));
+}
+pub(crate) async fn on_break(id: EndpointId) {
+    sched::event("c21.break", idx(id));
+    sched::pause(BEFORE_CLOSE).await;
+}
+pub(crate) async fn on_closed(id: EndpointId) {
+    sched::event("c21.closed", idx(id));
+    sched::pause(AFTER_CLOSE).await;
+}
+pub(crate) fn on_return(id: EndpointId, leftover: &[RemoteStateMessage]) {
+    sched::event("c21.return", format!("{} {}", idx(id), msgs_name(leftover)));
+}
+
+/// A `RemoteMap` with default collaborators (no address lookup services).
+pub struct Harness(inner::Harness);
+
+pub type Reply = oneshot::Receiver<Result<(), AddressLookupFailed>>;
+
+impl Harness {
+    #[allow(clippy::new_without_default)]
+    pub fn new() -> Self {
+        Harness(inner::Harness::new())
+    }
+
+    /// `RemoteMap::resolve_remote` for remote `i` with the single address `127.0.0.1:seq`
+    /// (non-empty, so the actor answers as soon as it handles the request).
+    pub async fn resolve_remote(&mut self, i: u8, seq: u16) -> Reply {
+        let addr = EndpointAddr::from_parts(
+            remote_id(i),
+            [TransportAddr::Ip(SocketAddr::from(([127, 0, 0, 1], seq)))],
+        );
+        self.0.resolve_remote(addr).await
+    }
+
+    /// One poll of `RemoteMap::cleanup`.
+    pub fn cleanup_now(&mut self) -> Option<String> {
+        self.0.cleanup_now().map(idx)
+    }
+
+    /// 0 sent, 1 full, 2 closed, 3 no sender
+    pub fn foreign_try_send(&self, i: u8) -> u8 {
+        self.0.foreign_try_send(remote_id(i))
+    }
+
+    pub fn has_sender(&self, i: u8) -> bool {
+        self.0.has_sender(remote_id(i))
+    }
+
+    pub fn n_tasks(&self) -> usize {
+        self.0.n_tasks()
+    }
+
+    /// Splits off what other tasks use while the owner is inside a call
+    /// (takes the local-address watchable along).
+    pub fn foreign(&mut self) -> Foreign {
+        Foreign(self.0.foreign())
+    }
+
+    /// Cancels the shutdown token every actor of this map watches.
+    pub fn shutdown(&self) {
+        self.0.shutdown_token.cancel();
+    }
+
+    /// Drops the local-address watchable: running actors see `Disconnected` and break.
+    pub fn disconnect_local_addrs(&mut self) {
+        self.0.local_addrs.take();
+    }
+}
+
+/// The read-only sender map, the shutdown token and the local-address watchable.
+pub struct Foreign(inner::Foreign);
+
+impl Foreign {
+    /// 0 sent, 1 full, 2 closed, 3 no sender
+    pub fn try_send(&self, i: u8) -> u8 {
+        self.0.try_send(remote_id(i))
+    }
+    pub fn shutdown(&self) {
+        self.0.shutdown_token.cancel();
+    }
+    pub fn disconnect_local_addrs(&mut self) {
+        self.0.local_addrs.take();
+    }
+}
